@@ -14,7 +14,8 @@ RULE = ("Programs are lists of items (NOP, RMB n, LDA 100,X, LDX #$1234, a branc
         "Enumerated: every short branch x both directions x every displacement -140..+140; every long branch x both "
         "directions x 0..140 (all 19) and 32750..32780 (LBRA LBSR LBEQ LBNE); label,PCR on LDA LEAX STA JMP (1-byte "
         "opcode) and LDY STS CMPD (2-byte) x plain/indirect x k in {-2,0,+2} x both directions x distance 0..140 with "
-        "three filler styles, and 32750..32780 for LDA/LDY; pairs (thorough: triples) of nested PCR statements over a "
+        "three filler styles, and 32750..32780 for LDA/LDY; constants of +-100..200 with the label in either order of "
+        "writing (T0+120 and 120+T0) at distances 0..35; pairs (thorough: triples) of nested PCR statements over a "
         "grid of gaps around the 8-bit limit in all direction combinations. Hypothesis draws item lists with 1-6 "
         "relative statements and fillers biased to the limits; a second search and an enumerated family take the "
         "filler between source and target from one label-free file spliced in by INCLUDE, twice or more. Oracle: "
@@ -62,7 +63,10 @@ def item_text(item):
         return A.line(lab, item["mn"], item["to"])
     if t == "pcr":
         k = item.get("k", 0)
-        tgt = item["to"] + ("" if k == 0 else ("+%d" % k if k > 0 else "-%d" % -k))
+        if item.get("rev") and k > 0:       # the constant written first: 120+T0,PCR
+            tgt = "%d+%s" % (k, item["to"])
+        else:
+            tgt = item["to"] + ("" if k == 0 else ("+%d" % k if k > 0 else "-%d" % -k))
         body = tgt + ",PCR"
         return A.line(lab, item["mn"], "[" + body + "]" if item.get("ind") else body)
     raise KeyError(t)
@@ -160,6 +164,15 @@ def enumerated(tier, seed):
                 for dist in range(0, 141):
                     for forward in (True, False):
                         yield one_source(dict(t="pcr", mn=mn, ind=ind, to="T0", k=k), dist, forward, (dist + k) % 3)
+    # 3b. a large constant with the label (either order of writing): the label is near, label+k is not
+    for mn in ("LDA", "LEAX", "LDY"):
+        for ind in (False, True):
+            for k in (100, 120, 127, 128, 200, -100, -128, -200):
+                for dist in list(range(0, 36)) + [120, 127]:
+                    for forward in (True, False):
+                        yield one_source(dict(t="pcr", mn=mn, ind=ind, to="T0", k=k), dist, forward, dist % 3)
+                        if k > 0:
+                            yield one_source(dict(t="pcr", mn=mn, ind=ind, to="T0", k=k, rev=True), dist, forward, dist % 3)
     # 4. label,PCR around the 16-bit limit
     for mn in ("LDA", "LDY"):
         for dist in range(32750, 32781):
@@ -302,7 +315,8 @@ def nested3(a, b, c):
 _gap = st.one_of(st.integers(0, 8), st.integers(100, 135), st.integers(0, 140), st.sampled_from([120, 123, 124, 125, 126, 127, 128, 129]))
 _rel = st.one_of(
     st.fixed_dictionaries(dict(t=st.just("pcr"), mn=st.sampled_from(PCR1 + PCR2), ind=st.booleans(),
-                               to=st.integers(0, 5), k=st.sampled_from([0, 0, 0, 1, -1, 2, -3, 7]))),
+                               to=st.integers(0, 5), k=st.sampled_from([0, 0, 0, 1, -1, 2, -3, 7, 100, 126, 130, 200, -120, -130]),
+                               rev=st.booleans())),
     st.fixed_dictionaries(dict(t=st.just("br"), mn=st.sampled_from(SHORT + LONG), to=st.integers(0, 5))))
 _segment = st.tuples(_gap, st.integers(0, 2), _rel)
 
